@@ -1,8 +1,10 @@
 package main
 
 import (
+	"bytes"
 	"fmt"
 	"go/ast"
+	"go/printer"
 	"go/token"
 	"sort"
 	"strings"
@@ -28,6 +30,13 @@ import (
 //     model leaves out);  core.go Unreserve / AfterPostFilter: the gang / manager methods they call, in order;
 //   - gang.go tryInitByPodConfig / tryInitByPodGroup: the test that guards the "gang is a group of its own"
 //     fallback (`groupSlice = append(groupSlice, gang.Name)`): "len==0" or "nil" (the model's groupOrSelf is len==0).
+//   - which match policy / mode is in force (the model's getMatchPolicy / resolvePolicy / normStrict):
+//     apis/extension GetGangMatchPolicy statement by statement (it returns the annotation, else the alias annotation,
+//     and no constant of its own); in tryInitByPodConfig / tryInitByPodGroup every assignment and every `if` condition
+//     that mentions `matchPolicy` resp. `mode`, in source order (exact comparisons, fallback to
+//     args.DefaultMatchPolicy resp. GangModeStrict, the value stored in the Gang); every comparison of
+//     getGangMode() / getGangMatchPolicy() in core.go; the five string constants; the v1 defaulting of
+//     DefaultMatchPolicy (only a nil pointer is replaced).
 func init() {
 	extractors["C04"] = func(e *ext) {
 		plug := "pkg/scheduler/plugins/coscheduling"
@@ -593,5 +602,138 @@ func init() {
 			fb = append(fb, fmt.Sprintf("(%s, %s)", leanStr(m), leanStr(kind)))
 		}
 		fmt.Fprintf(&e.out, "def groupFallbackTest : List (String × String) := [%s]\n", strings.Join(fb, ", "))
+
+		// ---- match policy / mode in force ----
+		src := func(n ast.Node) string {
+			var b bytes.Buffer
+			if err := printer.Fprint(&b, e.fset, n); err != nil {
+				return "?"
+			}
+			return strings.Join(strings.Fields(b.String()), "")
+		}
+		mentions := func(n ast.Node, name string) bool {
+			found := false
+			ast.Inspect(n, func(x ast.Node) bool {
+				if id, ok := x.(*ast.Ident); ok && id.Name == name {
+					found = true
+				}
+				return !found
+			})
+			return found
+		}
+		// assignments, `if` conditions and returns of a body that mention `name` ("" = all of them), in source order
+		flow := func(body *ast.BlockStmt, name string) []string { return flowBlock(body, name, src, mentions) }
+		extDir := "apis/extension"
+		if fd := e.funcDecl(extDir, "", "GetGangMatchPolicy"); fd != nil && fd.Body != nil {
+			fmt.Fprintf(&e.out, "def matchPolicyGetter : List String := %s\n", lst(flow(fd.Body, "")))
+		} else {
+			e.fail("extension.GetGangMatchPolicy not found")
+		}
+		var polRes, modeRes []string
+		for _, m := range []string{"tryInitByPodConfig", "tryInitByPodGroup"} {
+			fd := e.funcDecl(core, "Gang", m)
+			if fd == nil || fd.Body == nil {
+				e.fail("Gang.%s not found", m)
+				continue
+			}
+			polRes = append(polRes, fmt.Sprintf("(%s, %s)", leanStr(m), lst(flow(fd.Body, "matchPolicy"))))
+			modeRes = append(modeRes, fmt.Sprintf("(%s, %s)", leanStr(m), lst(flow(fd.Body, "mode"))))
+		}
+		fmt.Fprintf(&e.out, "def policyResolution : List (String × List String) := [%s]\n", strings.Join(polRes, ", "))
+		fmt.Fprintf(&e.out, "def modeResolution : List (String × List String) := [%s]\n", strings.Join(modeRes, ", "))
+		// every comparison of the gang's mode / match policy outside gang.go (core.go: Unreserve, AfterPostFilter, PreFilter paths)
+		var cmps []string
+		{
+			files := e.dir(core)
+			names := make([]string, 0, len(files))
+			for n := range files {
+				names = append(names, n)
+			}
+			sort.Strings(names)
+			for _, fn := range names {
+				for _, d := range files[fn].Decls {
+					fd, ok := d.(*ast.FuncDecl)
+					if !ok || fd.Body == nil {
+						continue
+					}
+					ast.Inspect(fd.Body, func(x ast.Node) bool {
+						be, ok := x.(*ast.BinaryExpr)
+						if !ok || (be.Op != token.EQL && be.Op != token.NEQ) {
+							return true
+						}
+						if t := src(be); strings.Contains(t, "getGangMode()") || strings.Contains(t, "getGangMatchPolicy()") ||
+							strings.Contains(t, ".Mode==") || strings.Contains(t, ".Mode!=") {
+							cmps = append(cmps, fd.Name.Name+":"+t)
+						}
+						return true
+					})
+				}
+			}
+		}
+		sort.Strings(cmps)
+		fmt.Fprintf(&e.out, "def modeAndPolicyTests : List String := %s\n", lst(cmps))
+		var consts []string
+		for _, c := range []string{"GangModeStrict", "GangModeNonStrict", "GangMatchPolicyOnlyWaiting", "GangMatchPolicyWaitingAndRunning", "GangMatchPolicyOnceSatisfied"} {
+			v, ok := e.valueSpec(extDir, c)
+			if !ok {
+				e.fail("extension.%s not found", c)
+				continue
+			}
+			consts = append(consts, fmt.Sprintf("(%s, %s)", leanStr(c), leanStr(src(v))))
+		}
+		fmt.Fprintf(&e.out, "def gangStringConsts : List (String × String) := [%s]\n", strings.Join(consts, ", "))
+		v1dir := "pkg/scheduler/apis/config/v1"
+		if fd := e.funcDecl(v1dir, "", "SetDefaults_CoschedulingArgs"); fd != nil && fd.Body != nil {
+			dv := "?"
+			if v, ok := e.valueSpec(v1dir, "defaultGangMatchPolicy"); ok {
+				dv = src(v)
+			}
+			fmt.Fprintf(&e.out, "def defaultMatchPolicyDefaulting : List String × String := (%s, %s)\n", lst(flow(fd.Body, "DefaultMatchPolicy")), leanStr(dv))
+		} else {
+			e.fail("v1.SetDefaults_CoschedulingArgs not found")
+		}
 	}
+}
+
+// flowBlock: see `flow` in the C04 extractor (statements of a nested block)
+func flowBlock(body *ast.BlockStmt, name string, src func(ast.Node) string, mentions func(ast.Node, string) bool) []string {
+	var out []string
+	for _, st0 := range body.List {
+		ast.Inspect(st0, func(x ast.Node) bool {
+			switch st := x.(type) {
+			case *ast.AssignStmt:
+				if name == "" || mentions(st, name) {
+					out = append(out, src(st))
+				}
+			case *ast.IfStmt:
+				if st.Init != nil && (name == "" || mentions(st.Init, name)) {
+					out = append(out, src(st.Init))
+				}
+				if name == "" || mentions(st.Cond, name) {
+					out = append(out, "if "+src(st.Cond))
+				}
+				out = append(out, flowBlock(st.Body, name, src, mentions)...)
+				if st.Else != nil {
+					if blk, ok := st.Else.(*ast.BlockStmt); ok {
+						out = append(out, flowBlock(blk, name, src, mentions)...)
+					} else {
+						out = append(out, flowBlock(&ast.BlockStmt{List: []ast.Stmt{st.Else}}, name, src, mentions)...)
+					}
+				}
+				return false
+			case *ast.ReturnStmt:
+				if name == "" {
+					var rs []string
+					for _, x := range st.Results {
+						rs = append(rs, src(x))
+					}
+					out = append(out, "return "+strings.Join(rs, ","))
+				}
+			case *ast.FuncLit:
+				return false
+			}
+			return true
+		})
+	}
+	return out
 }
